@@ -1005,7 +1005,7 @@ seeded("g3-store-under-type", ["C03", "C01", "C20"], "G4", [(C, '''             
                 break
 
             condition: bool''')])
-seeded("g3-store-stripped", ["C03", "C01", "C20", "C04"], {"C03": "G4", "C01": "G4", "C20": "G4", "C04": "S2"}, [(C, '''                if add:
+seeded("g3-store-stripped", ["C03", "C01", "C20"], "G4", [(C, '''                if add:
                     self.arguments[curarg["name"]] = avalue
                 break''', '''                if add:
                     self.arguments[curarg["name"]] = avalue.strip() if atype == "tag" else avalue
@@ -1045,3 +1045,53 @@ benign("c03-up-record-only-renamed-flag", ["C03", "C01"], [(P, '''        if onl
 ''', '''        if onlyrecord is True:
             return
 ''')])
+
+# --------------------------------------------------------------------------- C04
+seeded("s1-command-branch-removed", ["C04"], "S1", [(C, '''                if isinstance(value, Command):
+                    value.tosieve(indentlevel, target=target)
+                    continue
+
+                if "string" in atype:''', '''                if "string" in atype:''')], "tests inside not/if are written with str()")
+seeded("s1-string-before-list", ["C04"], "S1", [(C, '''                if type(value) == list:
+                    if self.__get_arg_type(arg["name"]) == ["testlist"]:
+                        target.write("(")''', '''                if "string" in atype and type(value) != list and False:
+                    pass
+                if "stringlist" in atype and "string" in atype and isinstance(value, str):
+                    target.write(value)
+                    continue
+                if "string" in atype and not isinstance(value, Command):
+                    target.write(value)
+                    continue
+                if type(value) == list:
+                    if self.__get_arg_type(arg["name"]) == ["testlist"]:
+                        target.write("(")''')], "list under a string-or-stringlist slot hits write(list)")
+seeded("s2-list-items-requoted", ["C04"], "S2", [(C, '''                                        (
+                                            v
+                                            if len(v) > 1
+                                            and v.startswith('"')
+                                            and v.endswith('"')
+                                            else '"%s"' % v.strip('"')
+                                        )''', '''                                        '"%s"' % v.strip('"')''')], "pre-fix behaviour")
+seeded("s2-string-value-stripped", ["C04"], "S2", [(C, '''                if "string" in atype:
+                    target.write(value)''', '''                if "string" in atype:
+                    target.write(value.strip())''')], "multi-line text loses trailing blank lines")
+seeded("s2-tag-lowercased", ["C04"], "S2", [(C, '''                if "tag" in atype:
+                    target.write(value)''', '''                if "tag" in atype:
+                    target.write(value.lower())''')], "fixed point broken for upper-case tags only")
+seeded("s3-block-open-without-space-newline", ["C04"], "S3", [(C, '''        target.write(" {\\n")''', '''        target.write(" [\\n")''')])
+seeded("s3-terminator-colon", ["C04"], "S3", [(C, '''                target.write(";\\n")''', '''                target.write(":\\n")''')])
+seeded("s4-no-newline-after-text-block", ["C04"], "S4", [(C, '''                    if not value.startswith('"') and not value.startswith("["):
+                        target.write("\\n")''', '''                    if not value.startswith('"') and not value.startswith("[") and indentlevel == 0:
+                        target.write("\\n")''')], "text: blocks inside a nested block are glued to the `;`")
+seeded("s5-last-child-skipped", ["C04"], "S5", [(C, '''        for ch in self.children:
+            ch.tosieve(indentlevel + 4, target=target)
+        self.__print("}", indentlevel, target=target)''', '''        for ch in self.children[:1]:
+            ch.tosieve(indentlevel + 4, target=target)
+        self.__print("}", indentlevel, target=target)''')])
+seeded("s5-separator-after-last", ["C04"], "S5", [(C, '''                            if value.index(t) != len(value) - 1:
+                                target.write(", ")''', '''                            target.write(", ")''')])
+benign("c04-isinstance-list", ["C04"], [(C, '''                if type(value) == list:
+                    if self.__get_arg_type(arg["name"]) == ["testlist"]:
+                        target.write("(")''', '''                if isinstance(value, list):
+                    if self.__get_arg_type(arg["name"]) == ["testlist"]:
+                        target.write("(")''')])
